@@ -78,6 +78,15 @@ CLAIMED["C18"] = dict(
     text="Exploration: handshakes between two peers with arbitrary prior divergence under all interleavings a seeded scheduler produces (both directions, concurrent local edits forwarded as Update messages) must end with equal documents and nothing pending; every protocol message is re-encoded and must decode to itself. Awareness: instances with injected clocks perform set / re-set / disconnect / timeout removal; every delivery is checked for clock monotonicity, protection of the own live state and idempotence; passive observers fed the same multiset of payloads in different orders (with duplicates) must agree with each other and with the register model.",
     design="DESIGN.md section 3 C18")
 
+CLAIMED["C09"] = dict(
+    technique="runtime monitoring: round-trip oracle (decode/encode fixpoint, structural comparison through hook H1, v1<->v2 re-coding, effect equality on documents) over harvested and generated payloads",
+    text="Exploration: every wire type is round-tripped on payloads harvested from hostile simulated histories, on generated values (all Any classes, all message tags, extreme ids/clocks, every sticky-index scope), on hand-written lib0 updates carrying foreign-only content kinds (Binary, legacy JSON, Deleted, GC, Skip) and on the Yjs-produced data set in assets/; structural equality, byte stability, cross-version re-coding and equality of the documents obtained by applying the v1 and the v2 form are required.",
+    design="DESIGN.md section 3 C09")
+CLAIMED["C10"] = dict(
+    technique="runtime monitoring + sanitizers: mutation fuzzing of 21 decode entry points in isolated workers under a counting global allocator (mon build with overflow checks and core ub_checks; thorough tier adds the release build, ASan and Miri)",
+    text="Exploration: hundreds of thousands of systematically and randomly mutated valid payloads (extreme count/length fields, truncations at every offset of small payloads, deep nesting, invalid UTF-8, splices) per run; an input may only yield a value or an error - a panic, an abort, a stack overflow (worker death attributed to the exact input), a single allocation request or a peak above 64*len+1MiB, or super-linear allocator work is a violation, as is a decoded value that cannot be encoded again.",
+    design="DESIGN.md section 3 C10")
+
 NOT_YET = {}
 
 
